@@ -227,6 +227,12 @@ pub fn check(c: &AiCase, probe: &Probe) -> Verdict {
     };
     let url = if fault_kind == Some("connection-refused") { "http://127.0.0.1:9/v1".to_string() } else { fake.url() };
     run = run.env("BLOCKWATCH_AI_API_URL", &url).env("BLOCKWATCH_AI_MODEL", &c.model);
+    // half of the cases run on a host whose environment carries the OpenAI SDK's own variables: only the
+    // BLOCKWATCH_AI_* ones may decide where the request goes and with which key
+    if (c.key.len() + c.blocks.len() + c.model.len()) % 2 == 0 {
+        probe.class("ambient OPENAI_* variables present");
+        run = run.env("OPENAI_API_KEY", "sk-ambient-foreign").env("OPENAI_BASE_URL", "http://127.0.0.1:9/v1").env("OPENAI_ORG_ID", "org-ambient");
+    }
     match fault_kind {
         Some("no-key") => {}
         Some("empty-key") => run = run.env("BLOCKWATCH_AI_API_KEY", ""),
@@ -373,7 +379,7 @@ pub fn case_strategy() -> BoxedStrategy<AiCase> {
 }
 
 pub fn run(run: &mut Run) {
-    run.rule = "random: 1..8 check-ai blocks spread over up to 3 files (Python `#` comments, or a JavaScript block comment with the condition spread over two lines), conditions and contents over printable ASCII incl. quotes, backslashes, braces, escapes, plus Unicode/NBSP/emoji, optional check-ai-pattern from the key-pattern family, plain blocks without check-ai in front of 25% of them, severity warning in 20%, scan or new-file diff mode, two keys and two model names; reply per block from 16 texts (OK, ok, Ok., OK., oK, ` OK`, `OK `, OKAY, OK.., multi-line, quotes/backslashes/tab, Unicode, empty); in 45% one fault from 14 kinds (no key, empty key, connection refused, 400/401 JSON, 404/400 plain, 200 invalid JSON, 200 without choices, empty choices, null content, closed mid-body, closed at once, empty body) injected on the k-th arriving request. A recording fake endpoint is the observer. Non-trivial = a fault case, or >= 2 blocks with content that JSON must escape.".into();
+    run.rule = "random: 1..8 check-ai blocks spread over up to 3 files (Python `#` comments, or a JavaScript block comment with the condition spread over two lines), conditions and contents over printable ASCII incl. quotes, backslashes, braces, escapes, plus Unicode/NBSP/emoji, optional check-ai-pattern from the key-pattern family, plain blocks without check-ai in front of 25% of them, severity warning in 20%, scan or new-file diff mode, two keys and two model names; in half of the cases the OpenAI SDK's own OPENAI_API_KEY / OPENAI_BASE_URL / OPENAI_ORG_ID variables are set to foreign values; reply per block from 16 texts (OK, ok, Ok., OK., oK, ` OK`, `OK `, OKAY, OK.., multi-line, quotes/backslashes/tab, Unicode, empty); in 45% one fault from 14 kinds (no key, empty key, connection refused, 400/401 JSON, 404/400 plain, 200 invalid JSON, 200 without choices, empty choices, null content, closed mid-body, closed at once, empty body) injected on the k-th arriving request. A recording fake endpoint is the observer. Non-trivial = a fault case, or >= 2 blocks with content that JSON must escape.".into();
     run.assumptions = vec![
         "429 and 5xx are not injected: the client library retries them with back-off for minutes and the statement does not list them".into(),
         "which block the k-th arriving request belongs to is not controlled".into(),
